@@ -6,7 +6,7 @@ job: {"spec": program spec (vcheck/components.py),
       "mode": one of enginekit.MODES (which API drives the run),
       "route": one of enginekit.ROUTES (how components and configuration reach the context),
       "noise": int (seeds and consumes the global numpy / random generators),
-      "prior": k | [style, ...]  (earlier contexts of this process: "empty" | "rich" | "same" | "interleaved"),
+      "prior": k | [style, ...]  (earlier contexts of this process: "empty" | "rich" | "same" | "twin" | "interleaved"),
       "verbosity": 0 | 1 | 2 (1, 2: loguru really logs, to a null device), "sim_name": str | null,
       "log_draws": bool, "report_dir": str | null (output_data.results_directory; `report()` writes there),
       C18: "save_all": {"dir", "ctx": "engine" | "interactive", "how": "write_backup" | "run_backup"},
@@ -331,6 +331,19 @@ def prior_context(style, k, spec, noise, scratch, probe):
     rng = random.Random(f"prior:{noise}:{k}")
     if style == "empty":
         SimulationContext(components=[], configuration={"population": {"population_size": 1}}, logging_verbosity=0)
+        return
+    if style == "twin":
+        # the SAME program - same seed, stream names, map size, population - alive in this process and stepped just before every
+        # step of the program under test, with the numbers of a simple clock of the other numeric kind (1.0 for 1): every key of
+        # that run is EQUAL to a key of the program under test and prints differently (seeded C01-5: a small LRU of draw blocks
+        # keyed by the tuple (decision point, clock(), key, seed) instead of the seed string)
+        ps = json.loads(json.dumps(spec))
+        if ps.get("clock") == "simple":
+            ps["float_clock"] = not ps.get("float_clock")
+        psim = make_context(SimulationContext, ps, "args", [], scratch)
+        psim.setup()
+        psim.initialize_simulants()
+        probe.others.append(psim)
         return
     if style == "same":
         # the same program with another seed, size and component configuration, left unfinished
